@@ -104,6 +104,9 @@ class Delegation:
         if (isinstance(caporlab, Labels) and self.type == DelegationType.CAPACITY) or \
             (isinstance(caporlab, Capacities) and self.type == DelegationType.LABEL):
             raise DelegationException(msg=f'Trying to add Capacities to a LABEL type delegation or vice versa')
+        if isinstance(caporlab, Labels):
+            # fields may have been assigned one by one since the object was built, check the values again
+            Labels(**(caporlab.to_dict() or {}))
         self.delegation_details = caporlab
 
     def get_details(self) -> Labels or Capacities:
@@ -373,6 +376,8 @@ class Pool:
         :return:
         """
         assert (isinstance(caporlab, Labels) or isinstance(caporlab, Capacities))
+        if isinstance(caporlab, Labels):
+            Labels(**(caporlab.to_dict() or {}))
         self.pool_details = caporlab
 
     def get_pool_details(self) -> Capacities or Labels:
